@@ -74,6 +74,53 @@ pub proof fn lemma_empty_seq_of_subset(s: Seq<KeyCode>, p: Set<KeyCode>)
   if s.len() > 0 { assert(s.contains(s[0])); }
 }
 
+// C02(b), statement level: x has a single-key mapping and occurs in no mapping's output
+pub open spec fn single_unoutput(l: Layout, x: KeyCode) -> bool {
+  (exists|i: int| 0 <= i < l.mappings@.len() && (#[trigger] l.mappings@[i]).from@.len() == 1 && l.mappings@[i].from@[0] == x)
+  && (forall|i: int| 0 <= i < l.mappings@.len() ==> !(#[trigger] l.mappings@[i]).to@.contains(x))
+}
+// a key with a single-key mapping always fires some mapping when it goes down (the single-key mapping is supported whatever else is held or absorbed)
+pub proof fn lemma_single_fires(ms: Seq<Mapping>, pressed: Seq<KeyCode>, absorbed: Set<KeyCode>, k: KeyCode)
+  requires exists|i: int| 0 <= i < ms.len() && (#[trigger] ms[i]).from@.len() == 1 && ms[i].from@[0] == k
+  ensures layout_fired(ms, pressed, absorbed, k) is Some
+  decreases ms.len()
+{
+  let i = choose|i: int| 0 <= i < ms.len() && (#[trigger] ms[i]).from@.len() == 1 && ms[i].from@[0] == k;
+  let m = ms.last();
+  if m.from@.len() >= 1 && m.from@.last() == k && supported_set(m.from@, pressed, absorbed, k) {}
+  else {
+    if i == ms.len() - 1 { assert(m.from@.last() == k); assert(supported_set(m.from@, pressed, absorbed, k)); }
+    else { assert(ms.drop_last()[i] == ms[i]); lemma_single_fires(ms.drop_last(), pressed, absorbed, k); }
+  }
+}
+// a key that is down after a batch of events was down before or is pressed by an event of the batch
+pub proof fn lemma_apply_origin(h: Set<KeyCode>, evs: Seq<Event>, x: KeyCode)
+  requires apply(h, evs) is Some, apply(h, evs).unwrap().contains(x)
+  ensures h.contains(x) || evs.contains(Event::Pressed(x))
+  decreases evs.len()
+{
+  if evs.len() > 0 {
+    let h1 = apply(h, evs.drop_last()).unwrap();
+    assert(evs[evs.len() - 1] == evs.last());
+    if h1.contains(x) {
+      lemma_apply_origin(h, evs.drop_last(), x);
+      if evs.drop_last().contains(Event::Pressed(x)) { let j = choose|j: int| 0 <= j < evs.drop_last().len() && evs.drop_last()[j] == Event::Pressed(x); assert(evs[j] == Event::Pressed(x)); }
+    } else { assert(evs.last() == Event::Pressed(x)); }
+  }
+}
+// a key that is down before a batch of events and is not released by an event of the batch is down afterwards
+pub proof fn lemma_apply_stays(h: Set<KeyCode>, evs: Seq<Event>, x: KeyCode)
+  requires apply(h, evs) is Some, h.contains(x), !evs.contains(Event::Released(x))
+  ensures apply(h, evs).unwrap().contains(x)
+  decreases evs.len()
+{
+  if evs.len() > 0 {
+    assert(evs[evs.len() - 1] == evs.last());
+    assert(!evs.drop_last().contains(Event::Released(x))) by { if evs.drop_last().contains(Event::Released(x)) { let j = choose|j: int| 0 <= j < evs.drop_last().len() && evs.drop_last()[j] == Event::Released(x); assert(evs[j] == Event::Released(x)); } }
+    lemma_apply_stays(h, evs.drop_last(), x);
+  }
+}
+
 //@ C01 C02 C06 C07 C19 | universal client: history-level theorems
 pub fn universal_client(layout: &Layout, ops: &Vec<Op>)
   requires layout_ok(*layout)
@@ -100,6 +147,8 @@ pub fn universal_client(layout: &Layout, ops: &Vec<Op>)
       forall|x: KeyCode| #[trigger] m.pressed_view().contains(x) ==> phys.contains(x),
       //@ C01 C06 | nothing considered pressed ==> nothing held on the virtual keyboard
       m.pressed_view().len() == 0 ==> m.held_view() == Set::<KeyCode>::empty(),
+      //@ C02 | (b) THEOREM C02(b) at every prefix: a key that has a single-key mapping and occurs in no mapping's output is never down on the virtual keyboard
+      forall|x: KeyCode| single_unoutput(*layout, x) ==> !m.held_view().contains(x),
     decreases ops.len() - i
   {
     let ghost out0 = out; let ghost phys0 = phys; let ghost held0 = m.held_view(); let ghost m0 = m;
@@ -191,6 +240,22 @@ pub fn universal_client(layout: &Layout, ops: &Vec<Op>)
                 None => {},
               }
             } }, _ => {} }
+          //@ C02 | (b) step: the only keys a step presses are output keys of the mapping that fires, or the pressed key itself when no mapping fires - and a key with a single-key mapping always fires one
+          assert forall|x: KeyCode| single_unoutput(*layout, x) implies !m.held_view().contains(x) by {
+            if m.held_view().contains(x) {
+              lemma_apply_origin(held0, r.events@, x);
+              assert(r.events@.contains(Event::Pressed(x)));
+              match e1g {
+                Event::Pressed(k) => {
+                  assert(!m0.pressed_view().contains(k));
+                  m0.lemma_gfired(*layout, k);
+                  lemma_fired_in_layout(layout.mappings@, m0.pressed_view(), m0.eff_absorbed(k), k);
+                  match m0.gfired(k) { Some(mv) => { assert(mv.to.contains(x)); }, None => { assert(x == k); lemma_single_fires(layout.mappings@, m0.pressed_view(), m0.eff_absorbed(k), k); } }
+                },
+                Event::Released(k) => { assert(all_released(r.events@)); },
+              }
+            }
+          }
           //@ C02 | (c) a physical key release never causes a virtual key press
           assert(e1g is Released ==> all_released(r.events@));
           //@ C07 C02 | a batch that only releases never makes a key held again
@@ -204,6 +269,7 @@ pub fn universal_client(layout: &Layout, ops: &Vec<Op>)
           if abs_ok(*layout) { assert(dead_inv(m, dead)); }
           out = out0 + evs@;
           lemma_apply_append(Set::<KeyCode>::empty(), out0, evs@);
+          assert forall|x: KeyCode| single_unoutput(*layout, x) implies !m.held_view().contains(x) by {}
           //@ C06 C12 | release-all: nothing is considered pressed, nothing is held, only releases are emitted
           assert(m.pressed_view().len() == 0 && m.held_view() == Set::<KeyCode>::empty() && all_released(evs@));
         }
